@@ -571,6 +571,89 @@ def c19(run, vc):
                       assumptions=["both builds run on this machine; the blst build uses the assembly backend available here"])
 
 
+# ------------------------------------------------------------------------------------ C03 / C04 / C05 (assembled)
+def _const_trace(run, vc):
+    tp, n, dt = vc.record("constants", run.prop.lower() + "_constants", 0)
+    ok, at, ev, dt2, states = vc.validate_trace("Trace_Tags", tp, run.prop.lower() + "_tags")
+    run.stages.append({"stage": "trace", "driver": "constants", "spec": "Trace_Tags", "events": n, "accepted": ok})
+    run.states += states
+    run.transitions += states
+    if ok:
+        run.traces += 1
+        run.trace_events += n
+    else:
+        run.violations.append(("trace", {"why": "a tag constant exposed by the library differs from spec/Tags.tla (IETF ciphersuite IDs) or is not distinct: event %d: %s" % (at, json.dumps(ev)[:300]), "event": ev, "at": at, "trace": tp}))
+
+
+def _multi_stage(run, vc, tables, stages, profiles="5"):
+    """stages: (module, cfg, keep, label); returns False if a spec invariant failed"""
+    for module, cfg, keep, label in stages:
+        r, bad = _tlc_stage(run, vc, module, cfg, [], timeout=7200)
+        if bad:
+            return False
+        vecs = [v for v in r["vectors"] if keep(v)]
+        if not vecs:
+            raise vc.ToolError("vacuity: no vectors for %s" % label)
+        run.samples.append(vecs[len(vecs) // 2])
+        s = vc.replay(vecs, run.prop.lower() + "_" + cfg.replace(".cfg", ""), tables, profiles=profiles)
+        run.add_replay(s, label, vecs, lambda v: v.get("expect", {}).get("res", v.get("expect", {}).get("out")) not in ("Ok", "Some"))
+    return True
+
+
+def c03(run, vc):
+    tier = run.tier
+    tables = _prep(run, vc)
+    _const_trace(run, vc)
+    prof = _profiles(tier, [5, 129], [1, 5, 32, 129, 4096])
+    ok = _multi_stage(run, vc, tables, [
+        ("MC_SigNet", "MC_SigNet_keygen_%s.cfg" % tier, lambda v: v["act"] in ("KeyGen", "PopProve") or (v["act"] == "PopVerify" and v.get("honest")), "KeyGen for seeds of 6 lengths through 5 entry points; proofs of possession byte for byte"),
+        ("MC_SigNet", "MC_SigNet_single_%s.cfg" % tier, lambda v: v["act"] == "Sign" or (v["act"] == "Verify" and v.get("honest")), "signatures of all schemes byte for byte; reference-made signatures accepted by the library and vice versa"),
+        ("MC_SigNet", "MC_SigNet_agg_%s.cfg" % tier, lambda v: v["act"] == "Aggregate" or (v["act"] == "AggVerify" and v["how"] == "none"), "aggregates equal the reference sum; reference AggregateVerify agrees"),
+    ], profiles=prof)
+    return run.finish(rule="vectors = every KeyGen (seed lengths 0, 1, 31, 32, 33, 1024 x from_hash / facade / curve-tagged wrapper / seeded random / facade seeded random), Sign, PopProve, Aggregate and honest Verify / PopVerify / AggVerify transition of the SigNet model; each executed on the real library and compared byte for byte with the independent evaluator (draft-irtf-cfrg-bls-signature: KeyGen from hand-written HKDF over HMAC-SHA-256, hash-to-curve and arithmetic from the pure-Rust backend, tags and framing from spec/Tags.tla); the tag constants the library exposes are validated by TLC against the IETF ciphersuite IDs",
+                      assumptions=["no network: no external test-vector file; the primitives' own RFC 9380 vectors anchor the evaluator", "symbolic model for the verdicts"])
+
+
+def c04(run, vc):
+    tier = run.tier
+    tables = _prep(run, vc)
+    idops = ("UId", "WId", "UWId", "VOne")
+    ok = _multi_stage(run, vc, tables, [
+        ("MC_SigNet", "MC_SigNet_single_%s.cfg" % tier, lambda v: (v["act"] == "Verify" and (v["idpk"] or v["idsig"])) or (v["act"] == "Sign" and v["k"] == 0), "single verification with identity key / signature (alone and together); signing with the zero key"),
+        ("MC_SigNet", "MC_SigNet_pop_%s.cfg" % tier, lambda v: (v["act"] in ("PopVerify", "Verify") and (v["idpk"] or v["idsig"])) or (v["act"] == "PopProve" and v["k"] == 0), "proof of possession with identity operands; zero key"),
+        ("MC_SigNet", "MC_SigNet_agg_%s.cfg" % tier, lambda v: v["act"] == "AggVerify" and (v["how"] == "idkey" or v["idsig"]), "identity key at every position of an aggregate list; identity aggregate"),
+        ("MC_SigNet", "MC_SigNet_multi_%s.cfg" % tier, lambda v: v["act"] == "MultiVerify" and (v["idpk"] or v["idsig"]), "accumulated key / multi-signature equal to the identity"),
+        ("MC_Pok", "MC_Pok_%s.cfg" % tier, lambda v: v["pert"] in ("u_id", "v_id", "uv_id", "y_zero", "pk_id", "forge_v_id") or v.get("y") == "zero", "identity commitment / response / key, zero challenge, forged identity response"),
+        ("MC_SignCrypt", "MC_SignCrypt_%s.cfg" % tier, lambda v: (v["act"] in ("IsValid", "Decrypt") and v["idpt"]) or (v["act"] == "ShareVerify" and v["idsub"] != "none"), "signcryption header identities (alone and jointly); identity decryption share / key share / W"),
+        ("MC_TimeLock", "MC_TimeLock_%s.cfg" % tier, lambda v: (v["act"] == "TLSeal" and v["k"] == 0) or (v["act"] == "TLDecrypt" and (v["idpt"] or any(o["op"] in idops for o in v["ct"]["ops"]))), "time-lock: sealing to the identity key refused; identity signature / U; ciphertext keyed to K = 1"),
+        ("MC_ElGamal", "MC_ElGamal_%s.cfg" % tier, lambda v: (v["act"] == "EGEncrypt" and v["k"] == 0) or (v["act"] in ("EGVerify", "EGVerifyDecrypt") and (any(o["how"] == "zero" for o in v["ops"]) or (v["act"] == "EGVerify" and any(o["op"] == "Identity" for o in v["pk"]["ops"])) or v.get("k2") == 0)), "ElGamal: identity recipient key refused; identity ciphertext components / zero proof scalars / zero secret key"),
+        ("MC_Threshold", "MC_Threshold_%s.cfg" % tier, lambda v: v["act"] == "PartialSign" and v["zero"], "a zero share never produces a signature share"),
+        ("MC_Codec", "MC_Codec_%s.cfg" % tier, lambda v: (v["act"] == "IsZero" and v["orv"] == 0) or (v["act"] == "Codec" and v["mut"]["kind"] == "scalar" and v["mut"]["class"] in ("zero", "r") and v["codec"] == "bytes" and v["secret"]), "the zero scalar (and r, which reduces to it) cannot be imported as a secret key / commitment secret / challenge from bytes"),
+    ])
+    return run.finish(rule="vectors = every transition of the SigNet, Pok, SignCrypt, TimeLock, ElGamal, Threshold and Codec models in which a point-typed operand is the identity (each position in turn and jointly with the position that would make the pairing equation trivially true), a challenge or proof scalar is zero, the signing key / share is zero, or the recipient key of a Result-returning seal is the identity; invariants NoIdentityAccepted / NoIdentity / ShareNoIdentity / SealRefusesIdentityKey / NoZeroSecret checked by TLC on the whole models, each such transition replayed on the real library",
+                      assumptions=["symbolic model: with the identity substituted the pairing product is trivially one, so only the guards can reject - the replay judges outcomes, not the presence of a particular guard", "sign_crypt returns no Result and is outside the statement's 'refused' clause"])
+
+
+def c05(run, vc):
+    tier = run.tier
+    tables = _prep(run, vc)
+    _const_trace(run, vc)
+    def cross_sig(v):
+        if v["act"] != "Verify":
+            return False
+        ops = v["sig"]["ops"]
+        return v["label"] != v["sig"]["base"]["scheme"] or any(o["op"] in ("Relabel", "AsSig", "AsPop") for o in ops) or any(o["op"] == "AddSig" and o["s"] != v["label"] for o in ops)
+    ok = _multi_stage(run, vc, tables, [
+        ("MC_SigNet", "MC_SigNet_single_%s.cfg" % tier, cross_sig, "a signature made under one scheme presented under another (all ordered pairs), incl. sums with signatures of other schemes"),
+        ("MC_SigNet", "MC_SigNet_pop_%s.cfg" % tier, lambda v: (v["act"] == "Verify") or (v["act"] == "PopVerify" and any(o["op"] == "AsPop" for o in v["proof"]["ops"])), "a signature over the public-key bytes presented as a proof of possession and a proof of possession presented as a signature, every scheme"),
+        ("MC_Pok", "MC_Pok_%s.cfg" % tier, lambda v: v["pert"] == "label", "a proof of knowledge relabelled to another scheme"),
+        ("MC_SignCrypt", "MC_SignCrypt_%s.cfg" % tier, lambda v: v["act"] in ("IsValid", "Decrypt") and any(o["op"] == "Relabel" for o in v["ct"]["ops"]), "a signcryption ciphertext relabelled to each other scheme"),
+        ("MC_TimeLock", "MC_TimeLock_%s.cfg" % tier, lambda v: v["act"] == "TLDecrypt" and (v["relabelled"] or v["sig"]["scheme"] != v["ct"]["scheme0"] or v["sig"]["label"] != v["sig"]["scheme"]) and v["sig"]["label"] == v["sig"]["scheme"], "a time-lock ciphertext opened with a genuine signature of another scheme, and a relabelled ciphertext"),
+    ])
+    return run.finish(rule="vectors = every transition of the SigNet, Pok, SignCrypt and TimeLock models in which the artefact's scheme label or purpose differs from the one it was made under (all ordered scheme pairs x keys x messages incl. the public-key bytes); TLC checks Separated, Distinct and IetfConform; the tag constants the library exposes are validated by TLC against spec/Tags.tla and for pairwise distinctness; the equality-pattern (Bind) rule of the SigNet traces independently rejects collapsed tags",
+                      assumptions=["symbolic model: distinct tags give independent hash symbols"])
+
+
 # ------------------------------------------------------------------------------------ traces
 def _trace_signet(run, vc, tables, name, events, mix="all"):
     """implementation -> spec: record a random walk of the real library, validate with TLC."""
@@ -579,4 +662,4 @@ def _trace_signet(run, vc, tables, name, events, mix="all"):
     vc.record_and_validate(run, "signet", "Trace_SigNet", name, events, tables, mix=mix)
 
 
-CHECKS = {"C01": c01, "C02": c02, "C06": c06, "C07": c07, "C08": c08, "C09": c09, "C10": c10, "C11": c11, "C12": c12, "C13": c13, "C14": c14, "C15": c15, "C16": c16, "C17": c17, "C18": c18, "C19": c19, "C20": c20}
+CHECKS = {"C01": c01, "C02": c02, "C03": c03, "C04": c04, "C05": c05, "C06": c06, "C07": c07, "C08": c08, "C09": c09, "C10": c10, "C11": c11, "C12": c12, "C13": c13, "C14": c14, "C15": c15, "C16": c16, "C17": c17, "C18": c18, "C19": c19, "C20": c20}
